@@ -121,8 +121,12 @@ class Rule:
                                 break
                             except (TypeError, ValueError):
                                 pass
-                    datum_path = DataPath(*datum_path)
-                    set_datum(data_copy, datum_path, datum)
+                    # write into the copy along the concrete path (map keys of any
+                    # type and list indices):
+                    parent = data_copy
+                    for key in datum_path[:-1]:
+                        parent = parent[key]
+                    parent[datum_path[-1]] = datum
 
         return RuleTest(self, data_copy)
 
